@@ -1,6 +1,6 @@
 SPECIFICATION Spec
 CONSTANT MaxFree = 5
-CONSTANT Budget = 2
+CONSTANT Budget = 1
 INVARIANT AutomatonGrammar
 INVARIANT AutomatonExact
 INVARIANT RejectOrExact
